@@ -35,8 +35,9 @@ def args_for(fe, cls, rules):
     a = {
         "valid": ["-enable=dupCase,assignOp,elseif,sloppyLen,captLocal"],
         "badGoVersion": ["-go=abc"],
-        "unknownFailOn": ["-enable=ruleguard", "-@ruleguard.rules=" + rules, "-@ruleguard.failOn=bogus"],
-        "noMatchPattern": ["-enable=ruleguard", "-@ruleguard.rules=" + rules + ",/nonexistent/verif-*.go"],
+        # ruleguard together with checkers that sort before and after it: one failing constructor must stop the run
+        "unknownFailOn": ["-enable=dupCase,assignOp,elseif,ruleguard,sloppyLen", "-@ruleguard.rules=" + rules, "-@ruleguard.failOn=bogus"],
+        "noMatchPattern": ["-enable=dupCase,assignOp,elseif,ruleguard,sloppyLen", "-@ruleguard.rules=" + rules + ",/nonexistent/verif-*.go"],
         "emptySelection": ["-enable=noSuchChecker"],
         "badParamValue": ["-@hugeParam.sizeThreshold=abc"],
         "unknownFlag": ["-noSuchFlagAtAll"],
